@@ -7,8 +7,35 @@ from . import tlc
 from .scen import tla
 
 VERIF = os.path.dirname(os.path.dirname(os.path.abspath(__file__)))
-HARNESS = os.path.join(VERIF, "harness")
-WORK = os.path.join(VERIF, "work")
+# Development aid: VERIF_REPO=<worktree> runs everything against another checkout of the crate (used to
+# try seeded mutants without touching /repo); harness copy, work files, evidence and replays then live
+# under /tmp/vw_<name>.  The registered commands never set it.
+REPO = os.environ.get("VERIF_REPO", "/repo")
+if REPO == "/repo":
+    HARNESS = os.path.join(VERIF, "harness")
+    WORK = os.path.join(VERIF, "work")
+    OUT = VERIF
+else:
+    _tag = REPO.strip("/").replace("/", "_")
+    OUT = os.path.join("/tmp", "vw_" + _tag)
+    WORK = os.path.join(OUT, "work")
+    HARNESS = os.path.join(OUT, "harness")
+
+
+def _prepare_alt_harness():
+    src = os.path.join(VERIF, "harness")
+    os.makedirs(HARNESS, exist_ok=True)
+    for root, dirs, files in os.walk(src):
+        dirs[:] = [d for d in dirs if not d.startswith("target")]
+        rel = os.path.relpath(root, src)
+        os.makedirs(os.path.join(HARNESS, rel), exist_ok=True)
+        for f in files:
+            data = open(os.path.join(root, f), "rb").read()
+            if f == "Cargo.toml":
+                data = data.replace(b'path = "/repo"', ('path = "%s"' % REPO).encode())
+            dst = os.path.join(HARNESS, rel, f)
+            if not os.path.exists(dst) or open(dst, "rb").read() != data:
+                open(dst, "wb").write(data)
 
 
 class ToolError(Exception):
@@ -28,6 +55,8 @@ FLAVOURS = {
 
 def build_harness(flavour="plain"):
     fl = FLAVOURS[flavour]
+    if REPO != "/repo":
+        _prepare_alt_harness()
     env = dict(os.environ)
     env["CARGO_NET_OFFLINE"] = "true"
     env["CARGO_TARGET_DIR"] = os.path.join(HARNESS, fl["target"])
@@ -240,7 +269,7 @@ def classify(prop, results, findings):
 
 
 def write_replay(prop, v, idx):
-    d = os.path.join(VERIF, "replays")
+    d = os.path.join(OUT, "replays")
     os.makedirs(d, exist_ok=True)
     path = os.path.join(d, f"{prop}_{idx}.json")
     with open(path, "w") as f:
@@ -285,7 +314,7 @@ def write_evidence(prop, tier, seed, results, violations, known, wall, extra=Non
                   "TLC, the PlusCal translator and the Json community module are trusted",
               ],
               wall_s=round(wall, 2), violations=len(violations))
-    os.makedirs(os.path.join(VERIF, "evidence"), exist_ok=True)
-    with open(os.path.join(VERIF, "evidence", f"{prop}.json"), "w") as f:
+    os.makedirs(os.path.join(OUT, "evidence"), exist_ok=True)
+    with open(os.path.join(OUT, "evidence", f"{prop}.json"), "w") as f:
         json.dump(ev, f, indent=1)
     return ev
